@@ -56,6 +56,22 @@ def jobs_for(tier, rng):
         jobs.append({"mdp": m, "kind": "PVI", "gamma": g, "eps": [rng.choice([1, 1, 2]), rng.choice([0, 1, 2])],
                      "period": p, "clear": rng.random() < 0.5, "calls": rng.choice(seqs),
                      "mbs": rng.choice([2, 1024]), "tag": f"PVI{k}"})
+    # long runs: integer-valued undiscounted deterministic MDPs never leave the 32-bit range, so hundreds of
+    # sweeps (and several calls) can be judged exactly
+    for k in range(4 if tier == "quick" else 16):
+        kind = ["VI", "PVI", "SAVI", "RVI"][k % 4]
+        if kind == "RVI":
+            m = gen.unichain(rng, ns=3, PD=2, rmax=2)
+            m["pk"] = [[[1, 1] if len(row) == 2 else row for row in sa] for sa in m["pk"]]
+            calls = [18, 3]
+        else:
+            m = gen.ring(rng, rng.randint(2, 5), extra=rng.randint(0, 4), v0max=2, rmax=3)
+            calls = rng.choice([[150], [64, 65], [100, 1, 30]])
+        job = {"mdp": m, "kind": kind, "gamma": [1, 1], "eps": [1, 10], "test": "span", "calls": calls,
+               "mbs": rng.choice([2, 3, 1024]), "shuffle": kind == "SAVI", "seed": k, "tag": f"long-{kind}{k}"}
+        if kind == "PVI":
+            job.update({"period": rng.randint(2, 4), "clear": False})
+        jobs.append(job)
     return jobs
 
 
